@@ -40,6 +40,12 @@ def judge(model, step, resp):
         data = step["data"]
         algo = req.get("algo") or opts_of(req).get("algo") or "sha256"
         o = opts_of(req)
+        if o.get("size") is not None and o["size"] != len(data):
+            # a commit that has to be refused: no effect on any lookup (whether the bytes stay behind at their address
+            # is not part of the model; histories using this keep that unobservable or unambiguous)
+            if v != "SizeMismatch":
+                probs.append(f"{op}({req['key']!r}) with declared size {o['size']} for {len(data)} bytes gave {ev.brief(resp)}")
+            return probs, v
         if v != "Ok":
             probs.append(f"{op}({req['key']!r}) failed: {ev.brief(resp)}")
             return probs, v
